@@ -1253,7 +1253,7 @@ func partProducer(run *hx.Run, r *hx.Rand, tmpRoot string) {
 			old = "OLD" + strconv.Itoa(cr.Intn(100))
 		}
 		k := cr.Intn(nch) // the producer fails before delivering chunk k (k < n: never a complete put)
-		kind := hx.Pick(cr, []string{"forwriteobject", "copy"})
+		kind := hx.Pick(cr, []string{"forwriteobject", "copy", "limit"})
 		dir := filepath.Join(tmpRoot, "pp"+strconv.Itoa(i))
 		must(os.MkdirAll(dir, 0o755))
 		if old != "-" {
@@ -1276,6 +1276,20 @@ func partProducer(run *hx.Run, r *hx.Rand, tmpRoot string) {
 			src := storagemem.NewReadWriteBucket()
 			must(bk.PutString(ctx, src, "f", strings.Join(chunks, "")))
 			_, perr = storage.Copy(ctx, failingSourceBucket{ReadBucket: src, chunks: chunks, k: k}, b, storage.CopyWithAtomic())
+		case "limit":
+			// storage.LimitWriteBucket refuses the write that would exceed the limit WITHOUT passing it
+			// on, so the disk bucket never learns that a write failed
+			limit := 0
+			for j := 0; j < k; j++ {
+				limit += len(chunks[j])
+			}
+			lb := storage.LimitWriteBucket(b, limit+len(chunks[k])-1)
+			w, e := lb.Put(ctx, "f", storage.PutWithAtomic())
+			must(e)
+			for j := 0; j < len(chunks) && perr == nil; j++ {
+				_, perr = w.Write([]byte(chunks[j]))
+			}
+			perr = errors.Join(perr, w.Close())
 		}
 		final, temps := inspect(dir, "f")
 		tempS := "-"
@@ -1290,7 +1304,9 @@ func partProducer(run *hx.Run, r *hx.Rand, tmpRoot string) {
 			run.Fail(hx.OracleFailure{Class: "producer-failure-not-reported", What: kind + " returned nil although the producer of the content failed", Input: in, Replay: rp})
 		}
 		okOld := (old == "-" && final == "-") || final == "="+old
-		if !okOld {
+		if !okOld && kind == "limit" {
+			run.Fail(hx.OracleFailure{Class: "atomic-put-limit-bucket-published", What: fmt.Sprintf("storage.LimitWriteBucket over an atomic disk put: write %d of %d was refused by the limit (error returned), but Close published %q over the previous %q", k+1, nch, final, old), Input: in, Replay: rp})
+		} else if !okOld {
 			run.Fail(hx.OracleFailure{Class: "atomic-put-producer-failure-published", What: fmt.Sprintf("%s with an atomic put: the producer failed after %d of %d chunks (no write failed), the error was returned, but the object now holds %q instead of the previous %q", kind, k, nch, final, old), Input: in, Replay: rp})
 		}
 		os.RemoveAll(dir)
